@@ -25,7 +25,7 @@ ANCHORS = [('oslo_utils.excutils', 'save_and_reraise_exception.capture'),
            ('oslo_utils.excutils', 'exception_filter.__call__'),
            ('oslo_utils.excutils', 'exception_filter.__get__'),
            ('oslo_utils.excutils', 'raise_with_cause'),
-           ('oslo_utils.fileutils', 'remove_path_on_error.__wrapped__')]
+           ('oslo_utils.fileutils', 'remove_path_on_error.__wrapped__|remove_path_on_error.__exit__')]
 RULE = ('handler programs: bodies of <= 2 ops over 9 atoms {noop, inner raise-and-catch, raise new, '
         'reraise off, reraise on, force_reraise caught, force_reraise escaping, capture() in an inner '
         'handler, capture() directly} + nested helper (flag, mode, body); depth = number of nested '
@@ -52,7 +52,7 @@ ASSUMPTIONS = ['the interpreter (this file) uses genuine try/except/with stateme
                'known finding K9 (second force_reraise on one capture) excuses only the identity of an '
                'object produced by such a second force_reraise, by an input-only predicate',
                'remove_path_on_error with non-Exception BaseExceptions is DONT-CARE (observed, not asserted)']
-INTERPRETER_FLAGS = [[], ['-O'], [], ['-bb']]
+INTERPRETER_FLAGS = [[], ['-O'], ['-X', 'dev'], ['-bb']]
 SHARDS = {'quick': 4, 'thorough': 16}
 MIN_DISTINCT = {'quick': 5000, 'thorough': 100000}
 
@@ -713,7 +713,7 @@ def _eval_filter(ctx, case):
 # ---------------------------------------------------------------------
 RPOE_STATES = ['file', 'absent', 'created-in-body', 'symlink', 'odd-name', 'dangling-symlink', 'symlink-to-dir']
 RPOE_REMOVES = ['default', 'custom-unlink', 'custom-raises', 'custom-raises-after-unlink', 'custom-reentrant']
-RPOE_BODIES = ['raise', 'complete', 'raise-in-except']
+RPOE_BODIES = ['raise', 'complete', 'raise-in-except', 'exitstack-replaced', 'manual-exit']
 RPOE_CLASSES = ['plain', 'need', 'chained', 'pre', 'key', 'oserror', 'fnf-naming-path', 'base', 'falsy']
 _path_counter = [0]
 
@@ -791,6 +791,39 @@ def _eval_rpoe(ctx, case):
         kwargs['remove'] = custom_raises
 
     def inner():
+        if bodyk == 'exitstack-replaced':
+            # contextlib.ExitStack: a manager registered later replaces the body's exception, so remove_path_on_error is
+            # exited with the replacement while the interpreter is still handling the first one
+            import contextlib
+
+            class Replacer:
+                def __enter__(self):
+                    return self
+
+                def __exit__(self, t, v, tb):
+                    _throw(st, cls, exc)
+            with contextlib.ExitStack() as stack:
+                stack.enter_context(fileutils.remove_path_on_error(path, **kwargs))
+                stack.enter_context(Replacer())
+                if state == 'created-in-body':
+                    with open(path, 'w') as f:
+                        f.write('half')
+                raise Other('first')
+        if bodyk == 'manual-exit':
+            # the context manager protocol driven by hand, outside any except block (what a framework's own exit stack,
+            # a test fixture or an async bridge does)
+            cm = fileutils.remove_path_on_error(path, **kwargs)
+            cm.__enter__()
+            if state == 'created-in-body':
+                with open(path, 'w') as f:
+                    f.write('half')
+            try:
+                _throw(st, cls, exc)
+            except BaseException as caught:  # noqa
+                details = (type(caught), caught, caught.__traceback__)
+            if not cm.__exit__(*details):
+                raise details[1]              # not suppressed: the exception goes on, as the with statement would do
+            return
         with fileutils.remove_path_on_error(path, **kwargs):
             if state == 'created-in-body':
                 with open(path, 'w') as f:
@@ -859,7 +892,9 @@ def _eval_rpoe(ctx, case):
         else:
             ctx.clause('rpoe-traceback-tail')
             have = tb_entries(got.__traceback__)
-            if not have or have[-1] != site:
+            if bodyk in ('exitstack-replaced', 'manual-exit'):
+                pass            # (who appended which frames is the driver's business here)
+            elif not have or have[-1] != site:
                 ctx.fail('rpoe-traceback-tail', case, {'got': _show(have), 'site': _show([site])})
         ctx.clause('rpoe-path-removed')
         if exists:
